@@ -766,4 +766,51 @@ def representativeSites : List Site := [
   .overlay 0, .createOverlay, .rfPost, .rfPre,
   .forEach, .stepInputs, .stepSkipIf, .switchOn, .state]
 
+/-! ## what the models say about the translator's probe inputs
+
+The translator runs `check_for_celevalerror` and the three evaluators of the tree under test on a
+fixed table of small inputs; these are the answers of `scan` / `site` / `evalPredicates` /
+`evalOverlay` on the same inputs. -/
+
+def scanProbeInputs : List (String × ETree) :=
+  let e := ETree.err
+  [("int", .int 1), ("string", .str "s"), ("null", .null), ("empty map", .obj []), ("empty list", .arr []),
+   ("error", e),
+   ("dict value", .obj [(.str "a", e)]), ("MapType value", .obj [(.str "a", e)]),
+   ("dict key", .obj [(.err, .int 1)]), ("MapType key", .obj [(.err, .str "v")]),
+   ("list item", .arr [.int 1, e]), ("ListType item", .arr [.int 1, e]), ("tuple item", .arr [.int 1, e]),
+   ("map in list in map", .obj [(.str "a", .arr [.obj [(.str "b", e)]])]),
+   ("list in tuple in dict", .obj [(.str "a", .arr [.arr [.int 1, .arr [e]]])]),
+   ("key at depth 3", .obj [(.str "a", .arr [.obj [(.err, .int 1)]])]),
+   ("clean nested", .obj [(.str "a", .arr [.obj [(.str "b", .arr [.int 1, .int 2])], .str "x"]),
+                          (.str "c", .obj [(.str "d", .arr [.null])])])]
+
+def scanProbeTable : List (String × String) :=
+  scanProbeInputs.map fun (n, t) => (n, if scan t then "found" else "clean")
+
+/-- the stand-in programs: what "celpy" did, per evaluator (evaluate, evaluate_predicates, evaluate_overlay) -/
+def evaluatorStimuli : List (String × EvalResult × EvalResult × EvalResult) :=
+  let r := EvalResult.raised
+  let nested := ETree.obj [(.str "k", .arr [.err])]
+  [("raises CELEvalError", r, r, r),
+   ("raises a CELEvalError whose tree cannot be dumped", r, r, r),
+   ("raises ValueError", r, r, r), ("raises KeyError", r, r, r), ("raises RuntimeError", r, r, r),
+   ("returns an error value", .val .err, .val .err, .val .err),
+   ("nested error", .val nested,
+      .val (.arr [.obj [(.str "assert", .bool false), (.str "skip", .obj [(.str "message", .err)])]]),
+      .val (.arr [nested])),
+   ("clean", .val (.obj [(.str "k", .int 1)]), .val (.arr []), .val (.arr [.int 1]))]
+
+def renderRes {α : Type} (r : Except Stop α) : String :=
+  match r with
+  | .ok _ => "value"
+  | .error (.permFail _ _) => "PermFail naming the location"
+  | .error _ => "other"
+
+def evaluatorProbeTable : List (String × String × String) :=
+  evaluatorStimuli.flatMap fun (name, a, b, c) =>
+    [("evaluate", name, renderRes (site (fun _ => a) .rfLocals).res),
+     ("evaluate_predicates", name, renderRes (evalPredicates (fun _ => b) (fun _ => none) .rfPre true).res),
+     ("evaluate_overlay", name, renderRes (evalOverlay (fun _ => c) (.overlay 0) [("a", .leaf 0)] (.obj [])).res)]
+
 end Koreo.EvalScan
